@@ -295,8 +295,9 @@ fn one_quantity(shard: &mut Shard, b: &mut Bench, rng: &mut Rng, q: &str, base: 
             let l = limits.max_invoke_input_size.min(300_000);
             limits.max_invoke_input_size = l;
             // size of an invocation = bytes identifying the callee + bytes of the argument value (KernelInvocation::len);
-            // the largest one is the root call TransactionProcessor::run (it contains the whole manifest)
-            let root_actor = NodeId::LENGTH + "TransactionProcessor".len() + "run".len();
+            // the largest one is the manifest's CALL_METHOD <component> "run" carrying the script (the transaction
+            // processor itself is not entered through an invocation): callee = node id + method name
+            let root_actor = NodeId::LENGTH + "run".len();
             let prog = |p: usize| vec![Op::FieldOp { handle: ACTOR_STATE_SELF, index: 0, mode: 0, payload: vec![7u8; p] }];
             let mut p = l.saturating_sub(600);
             let mut found = None;
@@ -370,7 +371,7 @@ fn one_quantity(shard: &mut Shard, b: &mut Bench, rng: &mut Rng, q: &str, base: 
                 l
             };
             // bisection for the smallest limit under which prog(n) commits
-            let mut hi = if heap { limits.max_heap_substate_total_bytes } else { limits.max_track_substate_total_bytes };
+            let mut hi = (if heap { limits.max_heap_substate_total_bytes } else { limits.max_track_substate_total_bytes }).min(2 * n + 400_000);
             let mut lo = 0usize;
             let (oh, rh) = b.run(shard, "c49:bytes:search", prog(n), Some(with(&limits, hi)));
             let oh = step_level(&rh, oh);
@@ -429,7 +430,7 @@ fn key_of_encoded_len_raw(target: usize) -> Option<Vec<u8>> {
 /// The probe continues after a failed non-invoking step: take the limit error from the step result
 /// when the transaction as a whole still committed.
 fn step_level(r: &PExec, tx: Outcome) -> Outcome {
-    if tx != Outcome::Success {
+    if matches!(tx, Outcome::Limit(..)) {
         return tx;
     }
     for ev in &r.trace {
@@ -438,7 +439,9 @@ fn step_level(r: &PExec, tx: Outcome) -> Outcome {
                 if let Some(o) = parse_limit_error(e) {
                     return o;
                 }
-                return Outcome::Other(format!("step-error:{}", crate::c50::err_class(e)));
+                if tx == Outcome::Success {
+                    return Outcome::Other(format!("step-error:{}", crate::c50::err_class(e)));
+                }
             }
         }
     }
